@@ -874,12 +874,12 @@ def coq_operand(o):
 
 
 def eval_fmt2(ck, name, triples):
-    """fmt_verdict2 of model/GoFmtInt.v on (format bytes, typed operands, printed bytes); None when Coq failed"""
+    """fmt_verdict3 of model/GoFmtIdx.v (= GoFmtInt.v on index-free formats: theorem fmt_model_with_indexes_extends_the_index_free_model) on (format bytes, typed operands, printed bytes); None when Coq failed"""
     cs = vcheck.coq_string
     body = ";\n  ".join("(%s, [%s], %s)" % (cs(f), "; ".join(coq_operand(o) for o in ops), cs(o_)) for f, ops, o_ in triples)
-    txt = ("From Coq Require Import List String Ascii ZArith.\nFrom Qryn Require Import model.GoFmt model.GoFmtInt.\nImport ListNotations.\nOpen Scope string_scope.\n"
-           "Definition cases : list fmt_case2 := [\n  " + body + "].\n"
-           "Definition R := Eval vm_compute in map fmt_verdict2 cases.\nPrint R.\n")
+    txt = ("From Coq Require Import List String Ascii ZArith.\nFrom Qryn Require Import model.GoFmt model.GoFmtInt model.GoFmtIdx.\nImport ListNotations.\nOpen Scope string_scope.\n"
+           "Definition cases : list fmt_case3 := [\n  " + body + "].\n"
+           "Definition R := Eval vm_compute in map fmt_verdict3 cases.\nPrint R.\n")
     rc, out = ck.coq_eval(name, txt)
     flat = " ".join(out.split())
     m = re.search(r"R = \[(.*?)\]\s*: list nat", flat)
@@ -899,6 +899,8 @@ def run_fmt_int_tie(ck):
     rnd = random.Random(int(ck.seed) + 8)
     texts = [b"a", b" LIMIT ", b"'", b"\\", b"(", b")", b"x'y", b"toDateTime(", b", ", b"--", b"-", b"\n", b"=", b"", b"1", b" - "]
     verbs = [b"%d", b"%s", b"%v", b"%d", b"%%", b"%d%d", b"%'", b"%\\", b"%!", b"%z", b"%t", b"%e", b"%f", b"%g", b"%S", b"%D", b"%)", b"%_",
+             b"%[1]d", b"%[2]s", b"%[1]s", b"%[2]d", b"%[3]v", b"%[0]s", b"%[9]d", b"%[12]d", b"%[1]d%d", b"%[2]s%[1]s",
+             b"%[]d", b"%[1d", b"%[1]%", b"%[1]5d", b"%5[1]d", b"%[x]d", b"%[1][2]d", b"%[-1]d",
              b"%b", b"%o", b"%O", b"%c", b"%U", b"%q", b"%x", b"%X", b"%5d", b"%-d", b"%+d", b"%05d", b"%[1]d", b"%.3d", b"% d", b"%T"]
     ints = ["i:0", "i:1", "i:-1", "i:100", "i:7001", "i:-7002", "i:1700000000", "l:0", "l:-1", "l:1700000000000000000", "l:9223372036854775807",
             "l:-9223372036854775808", "i:10", "i:-10", "l:1000000000", "i:99999", "l:-100000"]
@@ -912,11 +914,14 @@ def run_fmt_int_tie(ck):
         return rnd.choice(strs)
     fixed = [(b"SELECT 1 LIMIT %d", ["i:100"]), (b"SELECT 1 LIMIT %d", ["s:" + b"'".hex()]), (b"%s|%d|%v", ["i:5", "s:" + b"a".hex(), "l:7", "s:" + b"b".hex()]),
              (b"%d", []), (b"%d", ["l:-9223372036854775808"]), (b"%v%v", ["i:-3", "l:4"]), (b"", ["i:1", "l:2"]), (b"%", ["i:1"]), (b"%d %s", ["i:1"]),
-             (b"toDateTime(%d) AND val == %s LIMIT %d", ["l:-1700000000", "s:" + b"'x'".hex(), "i:100"])]
+             (b"toDateTime(%d) AND val == %s LIMIT %d", ["l:-1700000000", "s:" + b"'x'".hex(), "i:100"]),
+             (b"if(JSONType(%[2]s, %[1]s) == 'String', JSONExtractString(%[2]s, %[1]s))", ["s:" + b"'a\\'%s'".hex(), "s:" + b"string".hex()]),
+             (b"intDiv(timestamp_ns, %d) * %[1]d", ["l:15000000000"]), (b"%[3]d|%[0]s|%[1]d %s", ["i:1", "s:" + b"b".hex()]), (b"%[1]d", ["i:1", "i:2"]),
+             (b"%[2]d", ["i:1"]), (b"%d %[1]", ["i:1"]), (b"%[1]", ["i:1"])]
     cases = list(fixed)
     for _ in range(int(ck.n(260, 3000))):
         k = rnd.randint(1, 4)
-        f = b"".join(rnd.choice(texts) + (rnd.choice(verbs[:18]) if rnd.random() < 0.9 else rnd.choice(verbs)) for _ in range(k)) + rnd.choice(texts)
+        f = b"".join(rnd.choice(texts) + (rnd.choice(verbs[:28]) if rnd.random() < 0.9 else rnd.choice(verbs)) for _ in range(k)) + rnd.choice(texts)
         cases.append((f, [operand() for _ in range(rnd.randint(0, 4))]))
     inp = os.path.join(ck.work, "fmt2_in.jsonl")
     with open(inp, "w") as fh:
@@ -935,17 +940,19 @@ def run_fmt_int_tie(ck):
     bad = [r for r, v in zip(rows, verd) if v == 1]
     inside = sum(1 for v in verd if v == 0)
     with_int = sum(1 for r, v in zip(rows, verd) if v == 0 and any(not o.startswith("s:") for o in r["ops"]) and b"%d" in bytes.fromhex(r["format"]))
+    with_idx = sum(1 for r, v in zip(rows, verd) if v == 0 and b"%[" in bytes.fromhex(r["format"]))
+    badidx = sum(1 for r, v in zip(rows, verd) if v == 0 and b"(BADINDEX)" in bytes.fromhex(r["out"]))
     badverb = sum(1 for r, v in zip(rows, verd) if v == 0 and b"%!d(string=" in bytes.fromhex(r["out"]))
     ck.obligation("model/GoFmtInt.v = package fmt: fmt_go2 format operands is what the real fmt.Sprintf printed, on %d generated formats inside the modelled fragment "
-                  "(%d with an integer under %%d, %d with a string under %%d; %d outside: flags, index, width, precision, %%b %%o %%c %%U %%q %%x %%T)"
-                  % (inside, with_int, badverb, sum(1 for v in verd if v == 2)), not bad and inside >= 100 and with_int >= 40 and badverb >= 5,
+                  "(%d with an integer under %%d, %d with a string under %%d, %d with an argument index, %d with a bad index; %d outside: flags, width, precision, %%b %%o %%c %%U %%q %%x %%T)"
+                  % (inside, with_int, badverb, with_idx, badidx, sum(1 for v in verd if v == 2)), not bad and inside >= 100 and with_int >= 40 and badverb >= 5 and with_idx >= 40 and badidx >= 8,
                   "; ".join("%r %r -> %r" % (bytes.fromhex(r["format"]), r["ops"], bytes.fromhex(r["out"])) for r in bad[:3]))
     if bad:
         r = bad[0]
         ck.violation({"property": "C10", "kind": "model/GoFmtInt.v disagrees with package fmt", "format": bytes.fromhex(r["format"]).decode("utf8", "backslashreplace"),
                       "ops": r["ops"], "fmt_printed": bytes.fromhex(r["out"]).decode("utf8", "backslashreplace"),
                       "broken": "correspondence model/GoFmtInt.v vs package fmt"}, no_input=True)
-    ck.extra["gofmtint_tie"] = {"formats": len(rows), "inside_the_modelled_fragment": inside, "integer_under_%d": with_int, "string_under_%d": badverb,
+    ck.extra["gofmtint_tie"] = {"formats": len(rows), "inside_the_modelled_fragment": inside, "integer_under_%d": with_int, "string_under_%d": badverb, "argument_index": with_idx, "bad_index": badidx,
                                 "outside": sum(1 for v in verd if v == 2)}
     with vcheck_lock():
         ck.coverage["evaluations"] += inside
@@ -969,10 +976,11 @@ def run_fmt_sites_tie(ck, meta):
     bad = [r for r, v in zip(recs, verd) if v == 1 or (v == 0 and r["out"] != r["expect"])]
     inside = sum(1 for v in verd if v == 0)
     numeric = sum(1 for r, v in zip(recs, verd) if v == 0 and any(o["k"] == "d" for o in (r["ops"] or [])))
+    indexed = sum(1 for r, v in zip(recs, verd) if v == 0 and b"%[" in bytes.fromhex(r["format"]))
     outside = [(r["file"], r["line"], bytes.fromhex(r["format"]).decode("utf8", "replace")) for r, v in zip(recs, verd) if v == 2]
     ck.obligation("model/GoFmtInt.v prints every constant Sprintf format of the repository's SQL sites as package fmt does and as the census reads it "
-                  "(%d formats, %d with an integer under %%d; %d outside the modelled fragment: flags / width)" % (inside, numeric, len(outside)),
-                  not bad and inside >= 80 and numeric >= 8,
+                  "(%d formats, %d with an integer under %%d, %d with argument indexes; %d outside the modelled fragment: flags / width)" % (inside, numeric, indexed, len(outside)),
+                  not bad and inside >= 80 and numeric >= 8 and indexed >= 4 and len(outside) <= 3,
                   "; ".join("%s:%s %r" % (r["file"], r["line"], bytes.fromhex(r["format"])) for r in bad[:3]))
     if bad:
         r = bad[0]
@@ -980,7 +988,7 @@ def run_fmt_sites_tie(ck, meta):
                       "file": r["file"], "line": r["line"], "format": bytes.fromhex(r["format"]).decode("utf8", "backslashreplace"), "operands": r["ops"],
                       "fmt_printed": bytes.fromhex(r["out"]).decode("utf8", "backslashreplace"), "decomposition": bytes.fromhex(r["expect"]).decode("utf8", "backslashreplace"),
                       "broken": "correspondence model/GoFmtInt.v vs the repository's formats"}, no_input=True)
-    ck.extra["gofmt_sites_tie"] = {"formats": len(recs), "inside_the_modelled_fragment": inside, "with_an_integer_under_%d": numeric, "outside": outside[:20]}
+    ck.extra["gofmt_sites_tie"] = {"formats": len(recs), "inside_the_modelled_fragment": inside, "with_an_integer_under_%d": numeric, "with_argument_indexes": indexed, "outside": outside[:20]}
     with vcheck_lock():
         ck.coverage["evaluations"] += inside
 
